@@ -80,6 +80,8 @@ class FS(object):
         self.opens.append((path, mode))
         if 'r' in mode and self.find(path) < 0:
             raise IOError('no such file: %r' % (path,))
+        if 'w' in mode:
+            self.put(path, '' if 'b' not in mode else b'')      # opening for writing creates / truncates at once
         return _File(self, path, mode)
 
     # --- helpers
